@@ -16,7 +16,7 @@ RULE = ("(a) exhaustive: every signature of length 0-3 over {QUBIT, REGISTER, IN
         "stretch factors. non-trivial = arity >= 1; distinct = (signature, argument classes, call style)")
 ASSUMPTIONS = ["for Parameter-valued arguments only unambiguous cases are judged: a FLOAT parameter given to an INT parameter is "
                "not judged for acceptance (it may hold an integral value) but a rejection must still be a JaqalError"]
-TIERS = {"quick": {"shards": 8, "budget_s": 40}, "thorough": {"shards": 16, "budget_s": 240}}
+TIERS = {"quick": {"shards": 8, "budget_s": 80}, "thorough": {"shards": 16, "budget_s": 240}}
 REQUIRE = {"calls-on-a-definition-used-before": 20000, "definitions-used-before-variants-were-derived": 20, "calls-judged": 20000, "accepted": 2000, "rejected": 5000, "keyword-vs-positional": 5000, "idle-gates-checked": 20,
            "stretched-gates-checked": 15, "stretched_gates-calls-with-update": 6, "stretched-idle-gates-with-custom-names": 20, "stretch-factors-sampled": 100}
 
